@@ -1,5 +1,5 @@
 (* C05 -- Searchers are immutable snapshots; readers only ever see whole commits. *)
-From TV Require Import Base.Prelude Storage.Crash Storage.CrashProofs Storage.ReaderGC Storage.ReaderGCProofs Storage.ReloadStore Storage.ReloadStoreProofs Storage.Flock Storage.FlockProofs.
+From TV Require Import Base.Prelude Storage.Crash Storage.CrashProofs Storage.ReaderGC Storage.ReaderGCProofs Storage.ReloadStore Storage.ReloadStoreProofs Storage.Flock Storage.FlockProofs Storage.UpdaterLife Storage.UpdaterLifeProofs.
 Local Open Scope N_scope.
 
 (* For every interleaving (trace of any length, any number of readers, GC runs and publications)
@@ -76,7 +76,25 @@ Theorem C05_unlinking_release_breaks_exclusion :
   holders (flrun_gen true [FOpen 1; FLock 1; FOpen 2; FLock 2; FClose 1; FLock 2; FOpen 3; FLock 3]) = [3; 2].
 Proof. exact unlinking_release_breaks_exclusion. Qed.
 
+(* ---- what readers can be shown never moves back on the WRITER side either (Storage/UpdaterLife.v) ---- *)
+(* Merge threads and already queued end_merge tasks of a writer that was dropped or rolled back may still run; each would
+   save ITS updater's (old) view.  With Drop and rollback killing the updater and save_metas refusing on a killed updater
+   (DROP_KILLS_UPDATER, ROLLBACK_KILLS_UPDATER, SAVE_METAS_CHECKS_ALIVE regenerated from the source): for every sequence of
+   writer creations, commits, drops, rollbacks and arbitrarily late saves by any updater, the generation in meta.json never
+   moves back -- a published commit is never overwritten by a stale view, so no reload can go back to an older commit. *)
+Theorem C05_published_commit_never_overwritten : forall evs1 evs2,
+  us_meta (fold_left ustep evs1 ust0) <= us_meta (fold_left ustep (evs1 ++ evs2) ust0).
+Proof. exact meta_never_moves_back. Qed.
+Theorem C05_drop_without_kill_loses_a_commit :
+  us_meta (urun_gen false true true [UNew 1; UCommit 1; UGone 1 false; UNew 2; UCommit 2; USave 1]) = 1 /\
+  us_meta (urun_gen true true true [UNew 1; UCommit 1; UGone 1 false; UNew 2; UCommit 2; USave 1]) = 2.
+Proof. exact drop_without_kill_loses_a_commit. Qed.
+Theorem C05_save_without_liveness_check_loses_a_commit :
+  us_meta (urun_gen true true false [UNew 1; UCommit 1; UGone 1 true; UNew 2; UCommit 2; USave 1]) = 1.
+Proof. exact save_without_liveness_check_loses_a_commit. Qed.
+
 Print Assumptions C05_reload_opens_succeed.
+Print Assumptions C05_published_commit_never_overwritten.
 Print Assumptions C05_mmap_meta_lock_excludes.
 Print Assumptions C05_shared_reader_never_moves_back.
 Print Assumptions C05_monotone.
